@@ -706,7 +706,14 @@ impl Prop for C04 {
         for a in e1.iter() {
             for b in e1.iter() {
                 let (sa, sb) = (sem_expr(a, false).unwrap(), sem_expr(b, false).unwrap());
-                if sb.exact & !sa.exact != 0 || a == b {
+                // the second constraint selects values of the parent: its finite ends lie in the parent, an open end
+                // (MIN / MAX) means the parent's own end (X.680 51.4.3)
+                let finite_inside = match &b.operands[0] {
+                    Opnd::V(v) => range_bits(Some(*v), Some(*v)) & !sa.exact == 0,
+                    Opnd::R(l, h) => l.map_or(true, |v| range_bits(Some(v), Some(v)) & !sa.exact == 0) && h.map_or(true, |v| range_bits(Some(v), Some(v)) & !sa.exact == 0),
+                };
+                let open_end = matches!(&b.operands[0], Opnd::R(None, _) | Opnd::R(_, None));
+                if a == b || sb.exact & sa.exact == 0 || !(sb.exact & !sa.exact == 0 || (open_end && finite_inside)) {
                     continue;
                 }
                 for (xa, xb) in [(false, false), (false, true), (true, true), (true, false)] {
